@@ -15,9 +15,10 @@ TECHNIQUE = ("Coq refinement proof (induction over the operation list with an ab
              "to the code by differential execution of random operation sequences on the real persisters under ASan")
 LEVEL_TEXT = ("Theorem c26_file_refines: for every operation sequence (records <= 8192 bytes, searches starting at >= 1, no "
               "reopen after a control record overwrote a message's index entry) the file persister model returns exactly the "
-              "results of a map seq->bytes plus one control record; c26_mem_partial the same for the memory persister "
-              "without control-record reads/second control writes; c26_mem_refuted, c26_file_reopen_refuted, "
-              "c26_zero_request_refuted, c26_overlong_refuted exhibit the operation sequences on which the code departs.")
+              "results of a map seq->bytes plus one control record; c26_mem_refines the same for the memory persister at full "
+              "strength (control record included, no length bound; code since 760121b); c26_mem_orig_refuted (the code before "
+              "760121b), c26_file_reopen_refuted, c26_zero_request_refuted, c26_overlong_refuted exhibit the operation sequences "
+              "on which the code departs / departed.")
 LEVEL_NOTE = ("Trusted: Coq kernel, extraction, the hand transcription of persist.cpp/filepersist.cpp (checked by the "
               "correspondence run), POSIX lseek/read/write on regular files behaving as the byte-list model (no short "
               "writes, no I/O errors), ASan trapping the overrun of the 8192-byte stack buffer.")
@@ -31,11 +32,10 @@ TRUSTED_BASE = ["Coq 8.16.1 kernel (coqc), vm_compute only",
                 "ocaml/prelude.ml + ocaml/c26_driver.ml (parsing/printing of operations and results), harness/h_c26.cpp, vlib",
                 "g++ 12 -fsanitize=address,undefined; POSIX file semantics of the kernel (regular files in /tmp)"]
 ASSUMPTIONS = ["write/lseek/read on the two regular files never fail and never transfer fewer bytes than asked while data is available",
-               "sequence numbers and control values below 2^31 (off_t/int32 fields read back as unsigned in the model)",
-               "the garbage returned by MemoryPersister::get(sender,target) never coincides with the last stored control pair"]
+               "sequence numbers and control values below 2^31 (off_t/int32 fields read back as unsigned in the model)"]
 RULE = ("random operation sequences of length <= 40 (put/get/control put/control get/last/nearest/range get with and without "
         "abort/reopen) over sequence numbers 0..12 and payloads of 0..64 random bytes plus 8191/8192, on the real "
-        "MemoryPersister, the real FilePersister without reopen and with close+reopen between operations; most sequences "
+        "MemoryPersister (control record compared exactly), the real FilePersister without reopen and with close+reopen between operations; most sequences "
         "are control-first and search from >= 1 (inside the theorems' hypotheses), a fixed share exercises each listed "
         "finding and a malformed share (seq 0, duplicates, empty ranges, from > to). non-trivial = at least 3 accepted "
         "puts, a get, and a range or nearest operation; distinct = distinct case lines")
@@ -99,13 +99,9 @@ def gen_ops(rng, kind, n, ctl_first, zero_ok, reopen, mem_ctl, big_ok):
         elif r < 45:
             ops.append(("G", rng.randrange(0, 13)))
         elif r < 53:
-            if kind == "M" and not mem_ctl and nctl >= 1:
-                continue
             ops.append(("C", rng.randrange(0, 40), rng.randrange(0, 40)))
             nctl += 1
         elif r < 60:
-            if kind == "M" and not mem_ctl and nctl >= 1:
-                continue
             ops.append(("c",))
         elif r < 66:
             ops.append(("L",))
@@ -166,22 +162,6 @@ def run_impl(built, cases, tier):
 def postprocess(case, r):
     if r.startswith("CRASH") and "stack-buffer-overflow" in r and "filepersist.cpp" in r:
         return "OOB"
-    if case.line[0] == "M" and "1:" in r:
-        # MemoryPersister::get(sender, target) returns two halves of a heap pointer: canonical "1:?"
-        # unless the values are those of the latest control put (which a repaired persister returns)
-        try:
-            kind, ops = parse(case.line)
-            parts = r.split(";")
-            if len(parts) == len(ops):
-                lastc = None
-                for i, o in enumerate(ops):
-                    if o[0] == "C":
-                        lastc = "1:%d,%d" % (o[1], o[2])
-                    elif o[0] == "c" and parts[i].startswith("1:") and parts[i] != lastc:
-                        parts[i] = "1:?"
-                return ";".join(parts)
-        except Exception:
-            pass
     return r
 
 
@@ -197,7 +177,8 @@ def nontrivial(case, r):
 # --------------------------------------------------------------------------- classifiers
 
 def c_mem_control(case, r, m):
-    """memory persister: a control get after a control put, or a second control put"""
+    """memory persister: a control get after a control put, or a second control put
+    (finding repaired by 760121b: the entry is listed as fixed and suppresses nothing)"""
     kind, ops = parse(case.line)
     if kind != "M":
         return False
